@@ -4,7 +4,7 @@ CONSTANTS
   Kind = "obj"
   InitPartial = FALSE
   Mirror = FALSE
-  MaxLevel = 1
+  MaxLevel = 2
   Small = TRUE
   Avoid = FALSE
   SimK = 0
